@@ -45,6 +45,10 @@ def cases(tier, seed):
         if i % 8 == 1:      # file numbers of five and six digits at one level
             g["file_id_base"] = "mixed"
         cs.append(c)
+    # scale: several hundred boxes at a level spread over more than 64 binary files
+    for k in range(1 if tier == "quick" else 3):
+        cs.append({"gen": dict(seed=seed * 5 + 6160 + k, ndims=3, payload="random"), "scale": "manyboxes",
+                   "sel_seed": seed * 29 + 6160 + k, "shuffle1": True})
     # scale: box indices of six digits - two meshes one cell apart must still be told apart
     for k in range(1 if tier == "quick" else 4):
         cs.append({"kind": "long_mismatch", "split": 100002 + 7001 * k + seed % 5, "sel_seed": seed * 29 + 999 + k})
@@ -130,8 +134,13 @@ def run_case(case, work, rec):
     g = dict(case["gen"])
     n1 = ["a0", "a1", "shared", "a2"][:rng.randint(2, 4)]
     n2 = ["b0", "shared", "b1", "a0"][:rng.randint(1, 4)]
-    m1 = gen.gen_model(names=n1, shuffle=case["shuffle1"], **g)
-    m2base = gen.gen_model(names=n2, data_seed=g["seed"] + 1, **g)
+    if case.get("scale"):
+        m1 = gen.scale_model(case["scale"], names=n1, **g)
+        m2base = gen.scale_model(case["scale"], names=n2, data_seed=g["seed"] + 1, **g)
+        rec.count("scale_cases")
+    else:
+        m1 = gen.gen_model(names=n1, shuffle=case["shuffle1"], **g)
+        m2base = gen.gen_model(names=n2, data_seed=g["seed"] + 1, **g)
     assert [b.key() for b in m1.boxes[0]] == [b.key() for b in m2base.boxes[0]]
     if case.get("long_max"):
         gen.plant_long_max(m1, g["seed"]); gen.plant_long_max(m2base, g["seed"] + 1)
